@@ -1,7 +1,11 @@
 """property -> correspondence suites"""
-from .suites import pure
+from .suites import pure, diff
 
 PROPS = {
+    "C02": {
+        "suites": [diff.DiffSuite],
+        "assumptions": ["listing-level: the old-destination listing is what the receiver's walk of dest reports (tied by the resync suite)"],
+    },
     "C12": {
         "suites": [pure.PathFn, pure.ValidatorSuite],
         "assumptions": ["Go stdlib path/filepath (Clean, Dir, Base, IsAbs, Join) and sort.Search behave as modelled (exercised differentially by suite pathfn/validator)"],
